@@ -708,11 +708,10 @@ impl<'r, 'a> Th<'r, 'a> {
                 let r = if api.is_try() { t.try_lock(key) } else { Ok(t.lock(key)) };
                 let rec = s.api_end();
                 match r {
-                    Ok(mut g) => {
+                    Ok(g) => {
                         self.st.check_try_outcome(ctx, &q, true);
                         self.st.after_acquire(ctx, &rec);
-                        self.st.body(&self.cell, &mut g, ctx);
-                        self.release(ctx, g, T::unlock);
+                        self.body_and_release(ctx, g, T::unlock);
                         self.st.check_try_restored(ctx, &q, "after the guard was released");
                     }
                     Err(k) => {
@@ -726,11 +725,10 @@ impl<'r, 'a> Th<'r, 'a> {
                 let r = if api.is_try() { t.try_read(key) } else { Ok(t.read(key)) };
                 let rec = s.api_end();
                 match r {
-                    Ok(mut g) => {
+                    Ok(g) => {
                         self.st.check_try_outcome(ctx, &q, true);
                         self.st.after_acquire(ctx, &rec);
-                        self.st.body(&self.cell, &mut g, ctx);
-                        self.release(ctx, g, T::unlock_read);
+                        self.body_and_release(ctx, g, T::unlock_read);
                         self.st.check_try_restored(ctx, &q, "after the guard was released");
                     }
                     Err(k) => {
@@ -847,6 +845,35 @@ impl<'r, 'a> Th<'r, 'a> {
         }
     }
 
+    fn body_and_release<G: Held>(&mut self, ctx: &Ctx, mut g: G, unlock: impl FnOnce(G) -> ThreadKey) {
+        if ctx.acq.release != Release::UnlockInDrop {
+            self.st.body(&self.cell, &mut g, ctx);
+            self.release(ctx, g, unlock);
+            return;
+        }
+        // the guard lives inside a user value whose destructor hands it to unlock(): that runs
+        // on the normal path and, if the section panics, during the unwind
+        struct OnDrop<G, F: FnOnce(G) -> ThreadKey>(Option<G>, Option<F>);
+        impl<G, F: FnOnce(G) -> ThreadKey> Drop for OnDrop<G, F> {
+            fn drop(&mut self) {
+                if let (Some(g), Some(f)) = (self.0.take(), self.1.take()) {
+                    drop(f(g));
+                }
+            }
+        }
+        let mut w = OnDrop(Some(g), Some(unlock));
+        self.st.body(&self.cell, w.0.as_mut().unwrap(), ctx);
+        let s = self.st.s();
+        s.api_begin(ApiKind::Release, false);
+        drop(w);
+        let _rec = s.api_end();
+        self.kh.alive = false;
+        let held = s.held();
+        if !held.is_empty() {
+            s.report(Clause::KeyBackWhileHolding, format!("guard of {:?} on target {} was unlocked from a destructor but the caller still holds {:?}", ctx.acq.api, ctx.acq.target, held));
+        }
+    }
+
     fn release<G>(&mut self, ctx: &Ctx, g: G, unlock: impl FnOnce(G) -> ThreadKey) {
         let s = self.st.s();
         s.api_begin(ApiKind::Release, false);
@@ -863,6 +890,7 @@ impl<'r, 'a> Th<'r, 'a> {
                 std::mem::forget(g);
                 self.kh.leaked = true;
             }
+            Release::UnlockInDrop => unreachable!("happysim: handled by body_and_release"),
         }
         let _rec = s.api_end();
         if ctx.acq.release != Release::Forget {
@@ -1481,6 +1509,59 @@ pub struct RunResult {
     pub probes: Probes,
 }
 
+/// C07 with locks much smaller than a machine word, stored back to back: duplicate detection
+/// must tell neighbours apart whatever their size and alignment. No thread is involved; the
+/// verdict of every checked constructor is compared with "some index is listed twice".
+fn tiny_duplicate_checks(sched: &Sched, seed: u64) {
+    use happylock::collection::{BoxedLockCollection, RefLockCollection, RetryingLockCollection};
+    type TinyM = happylock::mutex::Mutex<u8, crate::raw::SimRawMutex>;
+    type TinyR = happylock::rwlock::RwLock<u8, crate::raw::SimRawRwLock>;
+    let mut rng = crate::rng::Rng::new(seed ^ 0x71A7);
+    let ms: Box<[TinyM; 8]> = Box::new(std::array::from_fn(|i| TinyM::new(i as u8)));
+    let rs: Box<[TinyR; 8]> = Box::new(std::array::from_fn(|i| TinyR::new(i as u8)));
+    for _ in 0..3 {
+        let len = rng.range(0, 6);
+        let dup_wanted = rng.chance(1, 3);
+        let mut idx: Vec<usize> = Vec::new();
+        let mut pool: Vec<usize> = (0..8).collect();
+        rng.shuffle(&mut pool);
+        while idx.len() < len {
+            if dup_wanted && !idx.is_empty() && rng.chance(1, 3) {
+                let d = *rng.pick(&idx);
+                idx.push(d);
+            } else {
+                idx.push(pool.pop().unwrap());
+            }
+        }
+        let mut sorted = idx.clone();
+        sorted.sort();
+        let dup = sorted.windows(2).any(|w| w[0] == w[1]);
+        let mut verdicts: Vec<(&str, bool)> = Vec::new();
+        if rng.chance(1, 2) {
+            let v: Vec<&TinyM> = idx.iter().map(|i| &ms[*i]).collect();
+            verdicts.push(("RefLockCollection over sub-word Mutexes", RefLockCollection::try_new(&v).is_some()));
+            verdicts.push(("RetryingLockCollection over sub-word Mutexes", RetryingLockCollection::try_new(v.clone()).is_some()));
+            verdicts.push(("BoxedLockCollection over sub-word Mutexes", BoxedLockCollection::try_new(v).is_some()));
+        } else {
+            let v: Vec<&TinyR> = idx.iter().map(|i| &rs[*i]).collect();
+            verdicts.push(("RefLockCollection over sub-word RwLocks", RefLockCollection::try_new(&v).is_some()));
+            verdicts.push(("RetryingLockCollection over sub-word RwLocks", RetryingLockCollection::try_new(v.clone()).is_some()));
+            verdicts.push(("BoxedLockCollection over sub-word RwLocks", BoxedLockCollection::try_new(v).is_some()));
+        }
+        let mut g = sched.lock();
+        for (what, accepted) in verdicts {
+            g.stats.dup_checks += 1;
+            if dup {
+                g.stats.dup_pos += 1;
+            }
+            if accepted == dup {
+                let d = format!("{}: try_new {} the index list {:?} (locks of {} bytes, stored back to back), which {} a duplicate", what, if accepted { "accepted" } else { "rejected" }, idx, std::mem::size_of::<TinyM>(), if dup { "contains" } else { "does not contain" });
+                g.event(Clause::DupVerdict, 0, d);
+            }
+        }
+    }
+}
+
 /// Execute one scenario from start to finish in this process.
 pub fn run_scenario(scn: &Scenario) -> RunResult {
     let nthreads = scn.program.threads.len();
@@ -1489,6 +1570,9 @@ pub fn run_scenario(scn: &Scenario) -> RunResult {
     sched::install(&sched);
     sched.lock().tag_drops = vec![0; scn.world.tags];
     sched.lock().tag_made = vec![0; scn.world.tags];
+    if scn.profile == "C07" {
+        tiny_duplicate_checks(&sched, scn.cfg.sched_seed);
+    }
     let world = World::new(&scn.world, &sched);
     if !world.address_ranks_ok() {
         sched.lock().event(Clause::Harness, 0, "arena addresses are not ascending".into());
